@@ -163,6 +163,8 @@ def service_scripts(rnd, tier):
                 for x in d.declared:
                     names.add((REG[fmt], x['name']))
                 steps.append({'op': 'change', 'uri': uri, 'text': t})
+                if rnd.random() < 0.3:
+                    steps[-1]['pre_texts'] = [M.mutate(rnd, d.text)]      # an earlier change of the same notification
             elif k < 0.9:
                 uri, fmt = rnd.choice(open_uris + [('file:///w/never-opened.json', 'package_json')])
                 steps.append({'op': 'action', 'uri': uri, 'line': rnd.choice([0, 1, 2, 3, 5, 8, 13, 400, 4294967295]), 'character': rnd.choice([0, 1, 7, 12, 20, 33, 200, 4294967295])})
